@@ -160,7 +160,10 @@ UNITS += [
         /*@from_file_header_matches_pack*/ r matches Ok(h) ==> hpack_size(h) == pack_size && hsize(h) + 4 <= pack_size
               && be.stored(id).len() >= pack_size
               && be.stored(id).subrange(pack_size - 4, pack_size as int) == le32(hsize(h)),
-"""),
+        // the header that is decoded is exactly the bytes in front of the length field, as long as that field says
+        /*@from_file_decodes_the_bytes_before_the_length_field*/ r matches Ok(h) ==> h == HDR_OF(be.stored(id).subrange(pack_size - 4 - hsize(h), pack_size - 4)),
+""",
+         hints=[("before", "let header = vdecrypt_and_parse_header(be, &data)?;", "        proof { assert(data.data@ =~= be.stored(id).subrange(pack_size - 4 - size_real, pack_size - 4)); }")]),
 ]
 
 HE = dict(wrap_open="impl HeaderEntry {", wrap_close="}")
